@@ -419,6 +419,15 @@ def check_code_forms(ctx):
                     isinstance(st.body[0], ast.Assign) and norm(st.body[0].targets[0]) == 'code' and isinstance(st.body[0].value, ast.Call) and \
                     call_name(st.body[0].value) == 'split':
                 ok = True
+            # joining arm: `src = code if isinstance(code, str) else '\n'.join(code)` -- the other arm *is* the list form
+            if not ok:
+                holder = cur
+                while holder in par and not isinstance(holder, (ast.IfExp, ast.If)):
+                    holder = par[holder]
+                if isinstance(holder, (ast.IfExp, ast.If)) and any(y is x for y in ast.walk(holder.test)):
+                    other = ([holder.orelse] if isinstance(holder, ast.IfExp) else holder.orelse) + ([holder.body] if isinstance(holder, ast.IfExp) else holder.body)
+                    if any(isinstance(y, ast.Call) and call_name(y) == 'join' and y.args and norm(y.args[0]) == 'code' for o in other for y in ast.walk(o)):
+                        ok = True
             ctx.check('R3.8', ok, fi.module, fi.qualname, norm(cur, 80),
                       'source given as one string is recognised here, the same source given as a list of lines is not (and falls into the node / '
                       'other-type path): the two forms of one request are treated differently', x.lineno,
